@@ -141,7 +141,13 @@ func FormatNumber(value float64, picture string, format DecimalFormat) (string, 
 	}
 
 	exponent := 0
-	if vars.MinExponentSize != 0 {
+	if vars.MinExponentSize != 0 && value != 0 {
+
+		// Scale the magnitude. The sign has been dealt with
+		// by processPicture and is ignored from here on (a
+		// negative value would never reach minMantissa, and
+		// zero has no exponent to find).
+		value = math.Abs(value)
 
 		maxMantissa := math.Pow(10, float64(vars.ScalingFactor))
 		minMantissa := math.Pow(10, float64(vars.ScalingFactor-1))
